@@ -355,6 +355,14 @@ MergeCompute(f) ==
     /\ jobs' = [jobs EXCEPT !.merge = [j EXCEPT !.phase = "gate", !.file = f]]
     /\ UNCHANGED <<settings, known, queue, nextID, allS, indexes, use, tags, flags, during, unmerge, views, toConv, cache>>
 
+\* index.Merge fails (environment fault: the output file cannot be created or written): the job reaches its gate
+\* without an output file
+MergeFail ==
+    LET j == jobs.merge IN
+    /\ j.phase = "start"
+    /\ jobs' = [jobs EXCEPT !.merge = [j EXCEPT !.phase = "gate"]]
+    /\ UNCHANGED <<settings, known, queue, nextID, allS, files, indexes, use, tags, flags, during, unmerge, views, toConv, cache>>
+
 \* the closure posted by mergeIndexesJob (manager.go:762-790)
 MergeDone ==
     LET j == jobs.merge
@@ -367,12 +375,20 @@ MergeDone ==
         b0 == Bundle(tags, fl1, [jobs EXCEPT !.merge = NoJob("merge")], use1, during, toConv)
         b1 == StartMerge(b0, idx1, r1[2], unmerge)
         r2 == ReleaseSeq(b1.use, r1[2], j.idx)
+        \* a failed merge: nothing is replaced, the oldest index of the run is left out of further merges
+        f0 == Bundle(tags, fl1, [jobs EXCEPT !.merge = NoJob("merge")], use, during, toConv)
+        f1 == StartMerge(f0, indexes, files, unmerge + 1)
+        f2 == ReleaseSeq(f1.use, files, j.idx)
     IN
     /\ j.phase = "gate"
-    /\ indexes' = idx1
-    /\ Install([b1 EXCEPT !.use = r2[1]])
-    /\ files' = r2[2]
-    /\ UNCHANGED <<settings, known, queue, nextID, allS, unmerge, views, cache>>
+    /\ IF j.file = ""
+       THEN /\ indexes' = indexes /\ unmerge' = unmerge + 1
+            /\ Install([f1 EXCEPT !.use = f2[1]])
+            /\ files' = f2[2]
+       ELSE /\ indexes' = idx1 /\ unmerge' = unmerge
+            /\ Install([b1 EXCEPT !.use = r2[1]])
+            /\ files' = r2[2]
+    /\ UNCHANGED <<settings, known, queue, nextID, allS, views, cache>>
 
 -----------------------------------------------------------------------------
 (* ---------- converter job ---------- *)
